@@ -1,4 +1,5 @@
 import CalVerif.Lemmas.Geometry
+import CalVerif.Lemmas.GeometryXls
 import CalVerif.Props.C05
 /-! # C17 — merged regions and tables are reported with the geometry the file declares
     Property theorems only (helper lemmas live in `Lemmas/Geometry.lean`).
@@ -196,91 +197,154 @@ theorem sheet_mergecells_exact : ∀ (recs : List (Nat × Bytes)) (blocks : List
 example : parseMergeCells (encodeMergedCells [⟨0, 0, 1, 1⟩, ⟨65535, 255, 65535, 255⟩]) =
     .ok [⟨0, 0, 1, 1⟩, ⟨65535, 255, 65535, 255⟩] := by decide
 
+/-- workbook level: `Xls::worksheet_merge_cells(name)` returns the regions of the substream that starts at
+    the BoundSheet8 offset of the sheet bearing that name — the declared regions of *that* sheet, in record
+    order —, for a sheet list `(lbPlyPos, name)` in which no later sheet repeats the name (a `BTreeMap` keeps the
+    last). Hypotheses: every substream's loop ends normally (otherwise `Xls::new` fails as a whole), and the
+    records `RecordIter` yields at that offset are `recs` followed by an EOF record (`BiffCells.items_frame`
+    shows this for every framed sequence of CONTINUE-free records), whose MERGEDCELLS records carry the blocks. -/
+theorem xls_merge_attribution {κ : Type} [DecidableEq κ] (stream : Bytes) (pre post : List (Nat × κ))
+    (pos : Nat) (name : κ)
+    (hall : ∀ s ∈ pre ++ (pos, name) :: post, s.1 ≤ stream.length ∧
+      ∃ ds, sheetMergeItems (BiffCells.items (stream.drop s.1)) = .ok ds)
+    (huniq : ∀ s ∈ post, s.2 ≠ name)
+    (recs : List Biff.Rec) (d : Bytes) (c : List Bytes) (tail : List BiffCells.Item)
+    (hitems : BiffCells.items (stream.drop pos) = recs.map .record ++ .record ⟨0x000A, d, c⟩ :: tail)
+    (hne : ∀ r ∈ recs, r.typ ≠ 0x000A) (blocks : List (List Rect))
+    (hb : ((recs.map (fun r => (r.typ, r.data))).filter (fun r => r.1 = 0x00E5)).map (·.2) =
+      blocks.map encodeMergedCells)
+    (hfit : ∀ b ∈ blocks, b.length < 8192 ∧ ∀ x ∈ b, x.Fits16) :
+    ∃ map, xlsSheetsMerges stream (pre ++ (pos, name) :: post) [] = .ok map ∧
+      xlsWorksheetMergeCells map name = some blocks.flatten := by
+  obtain ⟨map, hmap, hA, _⟩ := xlsSheetsMerges_lookup stream (pre ++ (pos, name) :: post) [] hall
+  obtain ⟨ds, hds, hlook⟩ := hA pre pos name post rfl huniq
+  refine ⟨map, hmap, ?_⟩
+  rw [hlook]
+  rw [hitems, sheetMergeItems_records d c tail recs] at hds
+  have hne' : ∀ r ∈ recs.map (fun r => (r.typ, r.data)), r.1 ≠ 0x000A := by
+    intro r hr
+    obtain ⟨x, hx, rfl⟩ := List.mem_map.mp hr
+    exact hne x hx
+  rw [sheet_mergecells_exact _ blocks hne' hb hfit []] at hds
+  injection hds with hds
+  rw [hds]
+
 /-! ## tables -/
 
-/-- the geometry arithmetic (after D17): with `header, totals ∈ {0, 1}` counted rows, no insert row and a
-    reference that has room for them, the data rectangle is the reference minus `header` rows at the top
-    and `totals` rows at the bottom -/
-theorem table_geometry_of (d : Rect) (h t : Nat) (_hh : h ≤ 1) (_ht : t ≤ 1) (hroom : t ≤ d.er)
-    (hbig : d.sr + h < U32) :
-    tableDimsOf d h t false = .ok ⟨d.sr + h, d.sc, d.er - t, d.ec⟩ := by
-  unfold tableDimsOf
-  have h1 : ¬ (h ≠ 0 ∧ d.sr + h ≥ U32) := by omega
-  have h2 : ¬ (t ≠ 0 ∧ d.er < t) := by omega
-  simp only [h1, h2, if_false, Bool.false_eq_true, false_and]
-  congr 1
-  have e1 : (if h ≠ 0 then d.sr + h else d.sr) = d.sr + h := by split <;> omega
-  have e2 : (if t ≠ 0 then d.er - t else d.er) = d.er - t := by split <;> omega
-  rw [e1, e2]
-
-/-- `table_geometry`: for every table reference inside the grid, `headerRowCount ∈ {0, 1}` and
-    `totalsRowCount ∈ {0, 1}` independently (and no insert row), the data rectangle computed from the `ref`
-    text is the reference minus its header rows at the top and its totals rows at the bottom. (A totals row
-    on a reference ending in row 1 is `table_geometry_totals_underflow`.) -/
-theorem table_geometry (m : Mode) (d : Rect) (hv : d.Valid) (h t : Nat) (hh : h ≤ 1) (ht : t ≤ 1)
-    (hroom : t ≤ d.er) :
-    tableDims m (renderRef d) h t false = .ok ⟨d.sr + h, d.sc, d.er - t, d.ec⟩ ∧
-    tableDims m (renderRef2 d) h t false = .ok ⟨d.sr + h, d.sc, d.er - t, d.ec⟩ := by
+/-- `table_geometry`: for every table reference inside the grid, `headerRowCount ∈ {0, 1}` and, independently,
+    `totalsRowCount ∈ {0, 1}` — indeed any totals count — (and no insert row): the data rectangle computed from the `ref`
+    text is the reference minus its header rows at the top and its totals rows at the bottom when that
+    leaves a data row, and the empty rectangle otherwise (after D17 and the robustness fix) -/
+theorem table_geometry (m : Mode) (d : Rect) (hv : d.Valid) (h t : Nat) (hh : h ≤ 1) :
+    let data : Rect := if d.sr + h + t ≤ d.er then ⟨d.sr + h, d.sc, d.er - t, d.ec⟩ else emptyRect d
+    tableDims m (renderRef d) h t false = .ok data ∧ tableDims m (renderRef2 d) h t false = .ok data := by
   obtain ⟨h1, h2, h3, h4⟩ := hv
   have hbig : d.sr + h < U32 := by simp only [U32]; omega
+  intro data
+  have hd : tableDimsOf d h t false = data := by
+    show _ = if d.sr + h + t ≤ d.er then _ else _
+    by_cases hrow : d.sr + h + t ≤ d.er
+    · rw [if_pos hrow]; exact tableDimsOf_data d h t hrow hbig
+    · rw [if_neg hrow]
+      unfold tableDimsOf
+      simp only [Bool.false_eq_true, if_false, Nat.add_zero, Nat.sub_zero]
+      rw [if_neg (by omega)]
   unfold tableDims
   rw [getDimension_renderRef m d ⟨h1, h2, h3, h4⟩, getDimension_renderRef2 m d ⟨h1, h2, h3, h4⟩]
-  exact ⟨table_geometry_of d h t hh ht hroom hbig, table_geometry_of d h t hh ht hroom hbig⟩
+  simp only [hd, and_self]
 
-/-- a totals row declared on a reference that ends in row 0 underflows (`u32` subtraction) -/
-theorem table_geometry_totals_underflow (d : Rect) (h t : Nat) (ht : t ≠ 0) (hlt : d.er < t)
-    (hbig : d.sr + h < U32) (ins : Bool) : ∃ s, tableDimsOf d h t ins = .panic s := by
-  unfold tableDimsOf
-  have h1 : ¬ (h ≠ 0 ∧ d.sr + h ≥ U32) := by omega
-  have h2 : t ≠ 0 ∧ d.er < t := ⟨ht, hlt⟩
-  rw [if_neg h1]
-  simp only []
-  rw [if_pos h2]
-  exact ⟨_, rfl⟩
-
-/-- `table_by_name`: the data range has exactly the table's data rectangle as bounds and shows the sheet's
-    value at every position of it (the default value where the sheet's used range does not reach) — wherever
-    the table lies relative to the used range, for an empty sheet too -/
+/-- `table_by_name` on a table with a data row: the data range has exactly the data rectangle as bounds
+    and shows the sheet's value at every position of it (the default value where the sheet's used range does
+    not reach) — wherever the table lies relative to the used range, for an empty sheet too; on an empty or
+    reversed rectangle the result is the empty range. In both cases `valAt` is the sheet's value inside the
+    rectangle and the default outside. -/
 theorem table_data_spec {α : Type} [Inhabited α] (rng : Range.Rng α) (hi : Range.Inv rng) (d : Rect)
     (t : Range.Rng α) (h : tableData rng d = .ok t) :
-    t.start = some (d.sr, d.sc) ∧ t.end_ = some (d.er, d.ec) ∧
+    (d.sr ≤ d.er ∧ d.sc ≤ d.ec → t.start = some (d.sr, d.sc) ∧ t.end_ = some (d.er, d.ec)) ∧
+    (¬ (d.sr ≤ d.er ∧ d.sc ≤ d.ec) → t = Range.empty) ∧
     ∀ p q, t.valAt p q = if d.contains p q then rng.valAt p q else default := by
-  unfold tableData at h
-  obtain ⟨_, _, hs, he⟩ := Range.inv_range rng hi d.sr d.sc d.er d.ec t h
-  refine ⟨hs, he, fun p q => ?_⟩
-  rw [Range.range_spec rng hi d.sr d.sc d.er d.ec t h p q]
-  simp only [Rect.contains, Bool.and_eq_true, decide_eq_true_eq, ge_iff_le]
-  by_cases hc : d.sr ≤ p ∧ p ≤ d.er ∧ d.sc ≤ q ∧ q ≤ d.ec
-  · rw [if_pos hc, if_pos ⟨⟨⟨hc.1, hc.2.1⟩, hc.2.2.1⟩, hc.2.2.2⟩]
-  · rw [if_neg hc, if_neg (fun h' => hc ⟨h'.1.1.1, h'.1.1.2, h'.1.2, h'.2⟩)]
+  by_cases hord : d.sr ≤ d.er ∧ d.sc ≤ d.ec
+  · rw [tableData_range rng d hord] at h
+    obtain ⟨_, _, hs, he⟩ := Range.inv_range rng hi d.sr d.sc d.er d.ec t h
+    refine ⟨fun _ => ⟨hs, he⟩, fun hn => absurd hord hn, fun p q => ?_⟩
+    rw [Range.range_spec rng hi d.sr d.sc d.er d.ec t h p q]
+    simp only [Rect.contains, Bool.and_eq_true, decide_eq_true_eq, ge_iff_le]
+    by_cases hc : d.sr ≤ p ∧ p ≤ d.er ∧ d.sc ≤ q ∧ q ≤ d.ec
+    · rw [if_pos hc, if_pos ⟨⟨⟨hc.1, hc.2.1⟩, hc.2.2.1⟩, hc.2.2.2⟩]
+    · rw [if_neg hc, if_neg (fun h' => hc ⟨h'.1.1.1, h'.1.1.2, h'.1.2, h'.2⟩)]
+  · rw [tableData_empty rng d (by omega)] at h
+    injection h with h
+    subst h
+    refine ⟨fun hn => absurd hn hord, fun _ => rfl, fun p q => ?_⟩
+    have hout : ¬ (d.contains p q = true) := by
+      simp only [Rect.contains, Bool.and_eq_true, decide_eq_true_eq, ge_iff_le]
+      omega
+    rw [if_neg hout]
+    simp [Range.Rng.valAt, Range.empty]
 
-/-- a table without a data row (only header and/or totals rows: the data rectangle would end above its
-    start) makes `table_by_name` panic (`Range::new` asserts `start <= end`) -/
-theorem table_data_degenerate {α : Type} [Inhabited α] (rng : Range.Rng α) (d : Rect) (hdeg : d.er < d.sr) :
-    ∃ s, tableData rng d = .panic s := by
-  unfold tableData Range.range Range.new
-  have : ¬ (d.sr < d.er ∨ d.sr = d.er ∧ d.sc ≤ d.ec) := by omega
-  simp only [this, not_false_eq_true, if_true]
-  exact ⟨_, rfl⟩
+/-- `table_degenerate_empty`: a table whose header rows, totals rows and insert row leave no data row —
+    whatever the counts, including a totals row on a reference ending in row 1 (the former `u32` underflow) and
+    counts larger than the reference — gets the empty rectangle, and `table_by_name` returns it with an empty
+    data range: `Ok`, never a panic -/
+theorem table_degenerate_empty {α : Type} [Inhabited α] (rng : Range.Rng α) (d : Rect) (h t : Nat) (ins : Bool)
+    (hdeg : d.er < d.sr + h + t + (if ins then 1 else 0)) :
+    tableDimsOf d h t ins = emptyRect d ∧ tableData rng (tableDimsOf d h t ins) = .ok Range.empty := by
+  have hd : tableDimsOf d h t ins = emptyRect d := by
+    unfold tableDimsOf
+    simp only
+    rw [if_neg (by omega)]
+  rw [hd]
+  exact ⟨rfl, tableData_empty rng _ (.inl (by simp [emptyRect]))⟩
 
-/-- end to end for one table: a reference inside the grid, 0/1 header rows, 0/1 totals rows, at least one
+/-- `table_by_name_no_panic`: for the code of the tree (saturating reference parser), any `ref` text
+    whatsoever, any header/totals counts, any `insertRow`, any sheet range: `read_table_metadata`'s geometry
+    step returns `Err` (unparsable reference) or a rectangle, and `table_by_name` on that rectangle returns
+    `Ok` provided its cell count fits `u32` — the dense allocation of `Range::new` beyond that is the known
+    memory finding D37 (C06), not a property of the table code -/
+theorem table_by_name_no_panic {α : Type} [Inhabited α] (m : Mode) (hm : m.satArith = true) (hd : m.satDim = true)
+    (ref : Bytes) (h t : Nat) (ins : Bool) (rng : Range.Rng α) :
+    (∃ e, tableDims m ref h t ins = .err e) ∨
+    (∃ d, tableDims m ref h t ins = .ok d ∧
+      ((d.er - d.sr + 1) * (d.ec - d.sc + 1) < Range.U32 → ∃ tbl, tableData rng d = .ok tbl)) := by
+  unfold tableDims
+  rcases getDimension_fine m hm hd ref with ⟨d0, h0⟩ | ⟨e, h0⟩
+  · rw [h0]
+    refine .inr ⟨_, rfl, fun harea => ?_⟩
+    generalize tableDimsOf d0 h t ins = d at harea ⊢
+    by_cases hord : d.sr ≤ d.er ∧ d.sc ≤ d.ec
+    · rw [tableData_range rng d hord]
+      have hr : 1 ≤ d.er - d.sr + 1 := by omega
+      have hc : 1 ≤ d.ec - d.sc + 1 := by omega
+      have h1 : d.er - d.sr + 1 ≤ (d.er - d.sr + 1) * (d.ec - d.sc + 1) := Nat.le_mul_of_pos_right _ hc
+      have h2 : d.ec - d.sc + 1 ≤ (d.er - d.sr + 1) * (d.ec - d.sc + 1) := Nat.le_mul_of_pos_left _ hr
+      exact Range.range_of_pre rng d.sr d.sc d.er d.ec ⟨hord.1, hord.2, by omega, by omega, harea⟩
+    · exact ⟨_, tableData_empty rng d (by omega)⟩
+  · rw [h0]; exact .inl ⟨e, rfl⟩
+
+/-- end to end for one table: a reference inside the grid, 0/1 header rows, any number of totals rows, at least one
     data row, fewer than 2^32 data cells; whatever the sheet's range is (any consistent `Range`, empty or
     not, overlapping the table or not): the table's data range is the reference minus header and totals
     rows and shows the sheet's values over it -/
 theorem table_exact {α : Type} [Inhabited α] (m : Mode) (rng : Range.Rng α) (hi : Range.Inv rng)
-    (d : Rect) (hv : d.Valid) (h t : Nat) (hh : h ≤ 1) (ht : t ≤ 1) (hrows : d.sr + h + t ≤ d.er)
+    (d : Rect) (hv : d.Valid) (h t : Nat) (hh : h ≤ 1) (hrows : d.sr + h + t ≤ d.er)
     (harea : (d.er - t - (d.sr + h) + 1) * (d.ec - d.sc + 1) < Range.U32) :
     ∃ dims tbl, tableDims m (renderRef d) h t false = .ok dims ∧ tableData rng dims = .ok tbl ∧
       tbl.start = some (d.sr + h, d.sc) ∧ tbl.end_ = some (d.er - t, d.ec) ∧
       ∀ p q, tbl.valAt p q =
         if d.sr + h ≤ p ∧ p ≤ d.er - t ∧ d.sc ≤ q ∧ q ≤ d.ec then rng.valAt p q else default := by
-  have hg := (table_geometry m d hv h t hh ht (by omega)).1
+  have hg := (table_geometry m d hv h t hh).1
+  simp only [if_pos hrows] at hg
   obtain ⟨h1, h2, h3, h4⟩ := hv
   have hpre : Range.rectPre (d.sr + h) d.sc (d.er - t) d.ec := by
     refine ⟨by omega, h2, ?_, ?_, harea⟩ <;> simp only [Range.U32] <;> omega
   obtain ⟨tbl, htbl⟩ := Range.range_of_pre rng (d.sr + h) d.sc (d.er - t) d.ec hpre
-  have hd : tableData rng ⟨d.sr + h, d.sc, d.er - t, d.ec⟩ = .ok tbl := htbl
-  obtain ⟨hs, he, hval⟩ := table_data_spec rng hi _ tbl hd
+  have hd : tableData rng ⟨d.sr + h, d.sc, d.er - t, d.ec⟩ = .ok tbl := by
+    have hord : (⟨d.sr + h, d.sc, d.er - t, d.ec⟩ : Rect).sr ≤ (⟨d.sr + h, d.sc, d.er - t, d.ec⟩ : Rect).er ∧
+        (⟨d.sr + h, d.sc, d.er - t, d.ec⟩ : Rect).sc ≤ (⟨d.sr + h, d.sc, d.er - t, d.ec⟩ : Rect).ec :=
+      ⟨by show d.sr + h ≤ d.er - t; omega, h2⟩
+    rw [tableData_range rng ⟨d.sr + h, d.sc, d.er - t, d.ec⟩ hord]; exact htbl
+  obtain ⟨hse, _, hval⟩ := table_data_spec rng hi _ tbl hd
+  obtain ⟨hs, he⟩ := hse ⟨by show d.sr + h ≤ d.er - t; omega, h2⟩
   refine ⟨_, tbl, hg, hd, hs, he, fun p q => ?_⟩
   rw [hval p q]
   simp only [Rect.contains, Bool.and_eq_true, decide_eq_true_eq, ge_iff_le]
@@ -342,45 +406,6 @@ theorem table_metadata_exact (m : Mode) (parts : List (Bytes × List Ev)) :
       rw [ih']
       rfl
 
-/-- the accessors over the loaded list: `table_names` lists the declared names in that order,
-    `table_names_in_sheet` those of one sheet, and a table is found under its name with the sheet that
-    declares it (`get_table_meta`) when no earlier table bears the same name -/
-theorem table_lookup_exact (before after : List TableEntry) (t : TableEntry)
-    (huniq : ∀ x ∈ before, x.name ≠ t.name) :
-    getTableMeta (before ++ t :: after) t.name = .ok t ∧
-    tableNames (before ++ t :: after) = before.map (·.name) ++ t.name :: after.map (·.name) := by
-  constructor
-  · unfold getTableMeta
-    rw [List.find?_append]
-    have : before.find? (fun x => decide (x.name = t.name)) = none := by
-      rw [List.find?_eq_none]; intro x hx; simpa using huniq x hx
-    rw [this]
-    simp
-  · simp [tableNames]
-
-/-- a table declaration meeting `TableDecl.Ok`: prefix-less, `id`/`name` attributes before `displayName`,
-    an `autoFilter` child with its own `ref`, no header row, one totals row, two columns -/
-def exTable : TableDecl :=
-  { name := [84], rect := ⟨1, 1, 4, 2⟩, hdr := some 0, tot := some 1, cols := [[97], [82, 38, 68]],
-    extra := [(['i', 'd'], [49]), (nName, [84])], colExtra := [(['i', 'd'], [49])],
-    inner := [.start ['a', 'u', 't', 'o', 'F', 'i', 'l', 't', 'e', 'r'] [(nRef, [66, 50, 58, 67, 52])],
-              .end_ ['a', 'u', 't', 'o', 'F', 'i', 'l', 't', 'e', 'r']],
-    tail := [.text [10]] }
-
-theorem exTable_ok : exTable.Ok := by
-  refine ⟨by decide, by decide, by decide, by decide, ?_, ?_, ?_, ?_, ?_⟩
-  · intro e he
-    simp only [exTable, List.mem_cons, List.not_mem_nil, or_false] at he
-    rcases he with rfl | rfl
-    · exact ⟨by decide, by decide⟩
-    · show localName _ ≠ nTable; decide
-  · intro e he; simp [exTable] at he
-  · intro e he
-    simp only [exTable, List.mem_cons, List.not_mem_nil, or_false] at he
-    subst he; trivial
-  · intro h hh; simp only [exTable, Option.some.injEq] at hh; omega
-  · intro n hn; simp only [exTable, Option.some.injEq] at hn; subst hn; exact ⟨by omega, by decide⟩
-
 /-- a sheet `x/w/s` whose relationship part lists a hyperlink and a table relationship `../t`, with the
     archive holding both parts: the hypotheses of `table_metadata_exact` are satisfiable -/
 example : ∃ parts, (⟨[83], [120], [119], [115],
@@ -404,6 +429,10 @@ example : ∃ parts, (⟨[83], [120], [119], [115],
 
 /-- the ledger's D17 input: `ref="B2:C5"`, no header row, one totals row: the data are rows 2–4 -/
 example (m : Mode) : tableDims m (renderRef ⟨1, 1, 4, 2⟩) 0 1 false = .ok ⟨1, 1, 3, 2⟩ :=
-  (table_geometry m ⟨1, 1, 4, 2⟩ (by decide) 0 1 (by decide) (by decide) (by decide)).1
+  (table_geometry m ⟨1, 1, 4, 2⟩ (by decide) 0 1 (by decide)).1
+
+/-- C06's fault-search input: a header row and a totals row on `A1:A2` leave no data row -/
+example (m : Mode) : tableDims m (renderRef ⟨0, 0, 1, 0⟩) 1 1 false = .ok ⟨1, 0, 0, 0⟩ :=
+  (table_geometry m ⟨0, 0, 1, 0⟩ (by decide) 1 1 (by decide)).1
 
 end Geometry
